@@ -714,7 +714,7 @@ theorem glyphCache_total (gloc glat : List Nat) (ngg : Nat) (preload : Bool) (gi
       | none => exact ⟨_, rfl, fun _ h => by cases h⟩
       | some gs =>
         simp only []
-        obtain ⟨bxs, ebx⟩ : ∃ v, (if (gs.map (·.2)).sum > 0 ∧ T.hasBoxes = true then preloadBoxes T gloc glat (max ngg T.numGlyphsAttr) 0 else Except.ok none) = .ok v := by
+        obtain ⟨bxs, ebx⟩ : ∃ v, (if T.hasBoxes = true then preloadBoxes T gloc glat (max ngg T.numGlyphsAttr) 0 else Except.ok none) = .ok v := by
           split
           · exact preloadBoxes_total T gloc glat ngg hT _ _
           · exact ⟨_, rfl⟩
@@ -737,5 +737,175 @@ theorem glyphCache_total (gloc glat : List Nat) (ngg : Nat) (preload : Bool) (gi
         obtain ⟨as, eas, has⟩ := askGlyphs_total T gloc glat ngg (max ngg T.numGlyphsAttr) hT gids
         rw [eas]
         exact ⟨_, rfl, fun c hc a ha => by cases hc; exact has a ha⟩
+
+/-! ## a preloaded cache and a cache that loads on demand hand out the same glyphs (C10) -/
+
+theorem preloadGlyphs_get (T : GlyphTables) (gloc glat : List Nat) : ∀ (n gid0 : Nat) (gs : List (Sparse × Nat)),
+    preloadGlyphs T gloc glat n gid0 = .ok (some gs) → gs.length = n ∧ ∀ k, k < n → ∃ g, gs[k]? = some g ∧ readGlyph T gloc glat (gid0 + k) = .ok (some g) := by
+  intro n
+  induction n with
+  | zero => intro gid0 gs h; unfold preloadGlyphs at h; cases h; exact ⟨rfl, fun k hk => by omega⟩
+  | succ n ih =>
+    intro gid0 gs h
+    unfold preloadGlyphs at h
+    simp only [bind, Except.bind, pure, Except.pure] at h
+    cases h1 : readGlyph T gloc glat gid0 with
+    | error e => rw [h1] at h; cases h
+    | ok r1 =>
+      rw [h1] at h
+      cases r1 with
+      | none => cases h
+      | some g =>
+        simp only [] at h
+        cases h2 : preloadGlyphs T gloc glat n (gid0 + 1) with
+        | error e => rw [h2] at h; cases h
+        | ok r2 =>
+          rw [h2] at h
+          cases r2 with
+          | none => cases h
+          | some rest =>
+            simp only [Except.ok.injEq, Option.some.injEq] at h
+            subst h
+            obtain ⟨hl, hk⟩ := ih (gid0 + 1) rest h2
+            refine ⟨by simp [hl], fun k hk' => ?_⟩
+            cases k with
+            | zero => exact ⟨g, rfl, h1⟩
+            | succ k =>
+              obtain ⟨g', e1, e2⟩ := hk k (by omega)
+              exact ⟨g', by simpa using e1, by rw [show gid0 + (k + 1) = gid0 + 1 + k by omega]; exact e2⟩
+
+theorem preloadBoxes_get (T : GlyphTables) (gloc glat : List Nat) : ∀ (n gid0 : Nat) (bs : List (Nat × Nat)),
+    preloadBoxes T gloc glat n gid0 = .ok (some bs) → bs.length = n ∧ ∀ k, k < n → ∃ b, bs[k]? = some b ∧ readBoxBytes T gloc glat (gid0 + k) = .ok (some b) := by
+  intro n
+  induction n with
+  | zero => intro gid0 bs h; unfold preloadBoxes at h; cases h; exact ⟨rfl, fun k hk => by omega⟩
+  | succ n ih =>
+    intro gid0 bs h
+    unfold preloadBoxes at h
+    simp only [bind, Except.bind, pure, Except.pure] at h
+    cases h1 : readBoxBytes T gloc glat gid0 with
+    | error e => rw [h1] at h; cases h
+    | ok r1 =>
+      rw [h1] at h
+      cases r1 with
+      | none => cases h
+      | some b =>
+        simp only [] at h
+        cases h2 : preloadBoxes T gloc glat n (gid0 + 1) with
+        | error e => rw [h2] at h; cases h
+        | ok r2 =>
+          rw [h2] at h
+          cases r2 with
+          | none => cases h
+          | some rest =>
+            simp only [Except.ok.injEq, Option.some.injEq] at h
+            subst h
+            obtain ⟨hl, hk⟩ := ih (gid0 + 1) rest h2
+            refine ⟨by simp [hl], fun k hk' => ?_⟩
+            cases k with
+            | zero => exact ⟨b, rfl, h1⟩
+            | succ k =>
+              obtain ⟨b', e1, e2⟩ := hk k (by omega)
+              exact ⟨b', by simpa using e1, by rw [show gid0 + (k + 1) = gid0 + 1 + k by omega]; exact e2⟩
+
+/-- **one glyph, either way of loading**: when the preloading constructor could read every glyph (`gs`) and every box (`bs`, for a font
+whose Glat table carries boxes), `glyph(gid)` of a cache that loads on demand hands out exactly the preloaded glyph and box -/
+theorem askGlyph_eq_preloaded (T : GlyphTables) (gloc glat : List Nat) (ng : Nat) (gs : List (Sparse × Nat)) (bs : List (Nat × Nat))
+    (hg : preloadGlyphs T gloc glat ng 0 = .ok (some gs)) (hb : T.hasBoxes = true → preloadBoxes T gloc glat ng 0 = .ok (some bs)) (gid : Nat) :
+    askGlyph T gloc glat ng gid = .ok (match gs[gid]? with
+      | none => GlyphAns.noSuch
+      | some g => GlyphAns.loaded g.1 (if T.hasBoxes then bs[gid]? else none)) := by
+  obtain ⟨gl, gk⟩ := preloadGlyphs_get T gloc glat ng 0 gs hg
+  unfold askGlyph
+  by_cases hge : gid ≥ ng
+  · rw [if_pos hge, List.getElem?_eq_none (by omega)]
+  · rw [if_neg hge]
+    obtain ⟨g, e1, e2⟩ := gk gid (by omega)
+    rw [Nat.zero_add] at e2
+    rw [e1, e2]
+    simp only []
+    cases hbx : T.hasBoxes with
+    | false => simp
+    | true =>
+      simp only [if_true]
+      obtain ⟨bl, bk⟩ := preloadBoxes_get T gloc glat ng 0 bs (hb hbx)
+      obtain ⟨b, f1, f2⟩ := bk gid (by omega)
+      rw [Nat.zero_add] at f2
+      rw [f2, f1]
+
+theorem askGlyphs_eq_preloaded (T : GlyphTables) (gloc glat : List Nat) (ng : Nat) (gs : List (Sparse × Nat)) (bs : List (Nat × Nat))
+    (hg : preloadGlyphs T gloc glat ng 0 = .ok (some gs)) (hb : T.hasBoxes = true → preloadBoxes T gloc glat ng 0 = .ok (some bs)) :
+    ∀ (gids : List Nat), askGlyphs T gloc glat ng gids = .ok (gids.map fun gid => match gs[gid]? with
+      | none => GlyphAns.noSuch
+      | some g => GlyphAns.loaded g.1 (if T.hasBoxes then bs[gid]? else none)) := by
+  intro gids
+  induction gids with
+  | nil => rfl
+  | cons gid rest ih =>
+    unfold askGlyphs
+    rw [askGlyph_eq_preloaded T gloc glat ng gs bs hg hb gid, ih]
+    rfl
+
+/-- **`gr_face_preloadGlyphs` changes no glyph**: on tables from which the preloading constructor can build a cache, and whose boxes (if
+the Glat table carries boxes) can all be read, the cache that loads on demand answers every sequence of glyph requests exactly as the
+preloaded one does -/
+theorem glyphCache_preload_eq_lazy (gloc glat : List Nat) (ngg : Nat) (gids : List Nat) (cp : GlyphCacheM)
+    (hp : glyphCache gloc glat ngg true gids = .ok (some cp))
+    (hwf : ∀ T, readGlyphTables gloc glat ngg = .ok (some T) → T.hasBoxes = true →
+      ∃ bs, preloadBoxes T gloc glat (max ngg T.numGlyphsAttr) 0 = .ok (some bs)) :
+    glyphCache gloc glat ngg false gids = .ok (some cp) := by
+  unfold glyphCache at hp ⊢
+  simp only [bind, Except.bind, pure, Except.pure] at hp ⊢
+  cases ht : readGlyphTables gloc glat ngg with
+  | error e => rw [ht] at hp; cases hp
+  | ok rt =>
+    rw [ht] at hp
+    cases rt with
+    | none => cases hp
+    | some T =>
+      simp only [] at hp ⊢
+      by_cases h0 : max ngg T.numGlyphsAttr = 0
+      · rw [if_pos h0] at hp; cases hp
+      rw [if_neg h0] at hp ⊢
+      simp only [if_true, Bool.false_eq_true, if_false] at hp ⊢
+      cases hg : preloadGlyphs T gloc glat (max ngg T.numGlyphsAttr) 0 with
+      | error e => rw [hg] at hp; cases hp
+      | ok rg =>
+        rw [hg] at hp
+        cases rg with
+        | none => cases hp
+        | some gs =>
+          simp only [] at hp
+          obtain ⟨gl, gk⟩ := preloadGlyphs_get T gloc glat _ 0 gs hg
+          obtain ⟨g0, _, e0⟩ := gk 0 (by omega)
+          rw [Nat.zero_add] at e0
+          rw [e0]
+          simp only []
+          cases hbx : T.hasBoxes with
+          | false =>
+            rw [hbx] at hp
+            simp only [Bool.false_eq_true, if_false] at hp
+            rw [askGlyphs_eq_preloaded T gloc glat _ gs [] hg (fun h => by rw [hbx] at h; cases h) gids]
+            simp only [hbx, Bool.false_eq_true, if_false]
+            simp only [Except.ok.injEq, Option.some.injEq] at hp
+            rw [← hp]
+            simp only [Except.ok.injEq, Option.some.injEq, GlyphCacheM.mk.injEq, true_and]
+            apply List.map_congr_left
+            intro gid _
+            cases gs[gid]? <;> rfl
+          | true =>
+            obtain ⟨bs, hbs⟩ := hwf T ht hbx
+            rw [hbx] at hp
+            simp only [if_true] at hp
+            rw [hbs] at hp
+            simp only [] at hp
+            rw [askGlyphs_eq_preloaded T gloc glat _ gs bs hg (fun _ => hbs) gids]
+            simp only [hbx, if_true]
+            simp only [Except.ok.injEq, Option.some.injEq] at hp
+            rw [← hp]
+            simp only [Except.ok.injEq, Option.some.injEq, GlyphCacheM.mk.injEq, true_and]
+            apply List.map_congr_left
+            intro gid _
+            cases gs[gid]? <;> rfl
 
 end GrVerif.Loader
